@@ -118,7 +118,14 @@ pub enum Via {
     Configure,
     /// `.configure(|cfg, _| cfg.exactly(n))`
     ConfigureExactly,
+    /// static `.at_most(hi)`, `.configure(|cfg, _| cfg.at_least(lo))`
+    MixedLo,
+    /// static `.at_least(lo)`, `.configure(|cfg, _| cfg.at_most(hi))` (requires an upper bound)
+    MixedHi,
+    /// static bounds, `.configure(|cfg, _| cfg)`
+    ConfigureNoop,
 }
+pub const ALL_VIAS: &[Via] = &[Via::Static, Via::Exactly, Via::Configure, Via::ConfigureExactly, Via::MixedLo, Via::MixedHi, Via::ConfigureNoop];
 
 /// Predicates of `filter` / `try_map`: functions of the flattened token text of the output only.
 #[derive(Clone, Copy, Debug, PartialEq, Eq, Hash, PartialOrd, Ord)]
@@ -355,7 +362,7 @@ impl G {
                     _ => true,
                 };
                 let arr_ok = true;
-                let cfg_ok = !(self.op == Sep && matches!(self.p.via, Via::Configure | Via::ConfigureExactly));
+                let cfg_ok = !(self.op == Sep && !matches!(self.p.via, Via::Static | Via::Exactly)) && !(self.p.via == Via::MixedHi && self.p.hi.is_none());
                 exact_ok && arr_ok && cfg_ok
             }
             _ => true,
@@ -390,6 +397,9 @@ impl G {
                     )
                 }
                 Via::ConfigureExactly => s += &format!(".configure(|c,_| c.exactly({}))", p.lo),
+                Via::MixedLo => s += &format!("{}.configure(|c,_| c.at_least({}))", p.hi.map(|h| format!(".at_most({})", h)).unwrap_or_default(), p.lo),
+                Via::MixedHi => s += &format!(".at_least({}).configure(|c,_| c.at_most({}))", p.lo, p.hi.unwrap_or(0)),
+                Via::ConfigureNoop => s += &format!(".at_least({}){}.configure(|c,_| c)", p.lo, p.hi.map(|h| format!(".at_most({})", h)).unwrap_or_default()),
             }
             s
         };
@@ -548,7 +558,7 @@ impl G {
             g.p.flav = *ALL_FLAVS.iter().find(|f| format!("{:?}", f) == s).ok_or("bad flav")?;
         }
         if let Some(s) = v.get("via").and_then(|s| s.as_str()) {
-            g.p.via = *[Via::Static, Via::Exactly, Via::Configure, Via::ConfigureExactly]
+            g.p.via = *ALL_VIAS
                 .iter()
                 .find(|f| format!("{:?}", f) == s)
                 .ok_or("bad via")?;
